@@ -27,6 +27,7 @@ import dask.bag as db  # noqa: E402
 import dask.dataframe as dd  # noqa: E402
 from dask import delayed  # noqa: E402
 from dask.base import is_dask_collection  # noqa: E402
+from dask.delayed import Delayed  # noqa: E402
 
 ID = "C14"
 LEVEL = "exploration"
@@ -40,8 +41,8 @@ ASSUMPTIONS = [
     "dataclasses with init=False fields are excluded a priori (how to rebuild them is undefined; dask.delayed documents them as unsupported)",
 ]
 
-KINDS = ("dly", "arr", "bag", "item", "df", "ser", "sc")
-PAIRS_MAIN = (("dly", "dly"), ("arr", "bag"), ("bag", "dly"), ("dly", "arr"), ("df", "sc"), ("dly", "df"), ("item", "ser"), ("sc", "arr"))
+KINDS = ("dly", "dln", "arr", "bag", "item", "df", "ser", "sc")  # dln = Delayed with nout=2 (has a length, can be unpacked)
+PAIRS_MAIN = (("dln", "dly"), ("arr", "bag"), ("bag", "dly"), ("dly", "arr"), ("df", "sc"), ("dly", "df"), ("item", "ser"), ("sc", "arr"))
 CONTAINERS = ("list", "tuple", "set", "dict", "dictk", "odict", "dc", "dcf", "dckw", "nt", "iter")
 SCHEDS = ("sync", "threads", "executor", "mp")
 
@@ -52,12 +53,13 @@ def RULE(tier):
     return (
         f"{n} cases: every template of depth <= {d} over containers {CONTAINERS + ('args',)} (depth 1: all item tuples of length 1-2 over 7 leaves "
         "{X, X again, Y, 1, 's', None, opaque object}; deeper levels: every outer container x 4 arrangements x every inner container x 6 item tuples) "
-        f"x 8 (X kind, Y kind) pairs over {KINDS} through dask.compute; core templates (every container x 4 item tuples) x ALL 49 kind pairs x "
+        f"x 8 (X kind, Y kind) pairs over {KINDS} through dask.compute; core templates (every container x 4 item tuples) x ALL 64 kind pairs x "
         "traverse {T,F} x optimize_graph {T,F} x scheduler {sync, threads, ThreadPoolExecutor instance, multiprocessing.get with in-line pool}; "
         "every depth-1 template x 8 kind pairs x each single option flipped; dask.persist and dask.optimize on every depth-1 template and the "
-        "core depth-2 templates (8 kind pairs) and the core templates (49 pairs): same structure, same collection type and metadata "
-        "(dtype/chunks/npartitions/divisions/columns), same computed values; INTERLEAVED templates (X, Y, Z[, W]) with Z a second distinct collection "
-        "of X's kind and W of Y's kind, in list/tuple/dict/positional args (thorough: + OrderedDict/iterator, all 24 orders) and nested, all 49 kind pairs, compute x "
+        "core depth-2 templates (8 kind pairs) and the core templates (64 pairs): same structure, same collection type and metadata "
+        "(array dtype/shape/chunks/_meta, bag npartitions, frame npartitions/divisions/columns/dtypes, Delayed length = nout, whose unpacking must "
+        "still yield the elements), same computed values; INTERLEAVED templates (X, Y, Z[, W]) with Z a second distinct collection "
+        "of X's kind and W of Y's kind, in list/tuple/dict/positional args (thorough: + OrderedDict/iterator, all 24 orders) and nested, all 64 kind pairs, compute x "
         "optimize_graph x scheduler, persist, optimize. non-trivial = the template holds >= 1 collection inside a container."
     )
 
@@ -114,12 +116,18 @@ def inc(x):
     return x + 1
 
 
+def pair(x):
+    return (x, x + 1)
+
+
 # ====================================================================== collections and their eager values
 def make(kind, which):
     """-> (collection, eager value).  which in {'X', 'Y', 'Z', 'W'}: different data, so no two of them compute to equal values"""
     off = {"X": 0, "Y": 10, "Z": 20, "W": 30}[which]
     if kind == "dly":
         return delayed(inc, pure=True)(delayed(5 + off, name=f"five-{which}")), 6 + off
+    if kind == "dln":
+        return delayed(pair, pure=True, nout=2)(delayed(5 + off, name=f"five-{which}")), (5 + off, 6 + off)
     if kind == "arr":
         x = np.arange(4) + 1 + off
         return da.from_array(x, chunks=2) + 1, x + 1
@@ -144,7 +152,12 @@ def meta_of(c):
     """the metadata persist/optimize must keep"""
     t = type(c).__name__
     if isinstance(c, da.Array):
-        return (t, str(c.dtype), c.shape, c.chunks)
+        return (t, str(c.dtype), c.shape, c.chunks, type(c._meta).__name__, str(c._meta.dtype), c._meta.ndim)
+    if isinstance(c, Delayed):
+        try:
+            return (t, len(c))  # a Delayed built with nout=k has length k
+        except TypeError:
+            return (t, None)
     if isinstance(c, db.Bag):
         return (t, c.npartitions)
     if isinstance(c, dd.DataFrame):
@@ -311,7 +324,19 @@ def walk_collections(t, got, env, vals, path="$"):
             except Exception as e:  # noqa: BLE001
                 return (f"result-compute-raises:{type(e).__name__}", f"{path}: returned {type(got).__name__} fails to compute: {e!r}"[:300])
             why = same(v, vals[name])
-            return ("wrong-value", f"{path}: returned {type(got).__name__} computes to a different value: {why}") if why else None
+            if why:
+                return ("wrong-value", f"{path}: returned {type(got).__name__} computes to a different value: {why}")
+            if isinstance(orig, Delayed) and meta_of(orig)[1] is not None:  # nout: unpacking must still yield the elements
+                try:
+                    parts = dask.compute(*list(got), scheduler="sync")
+                except Hang:
+                    raise
+                except Exception as e:  # noqa: BLE001
+                    return (f"unpack-raises:{type(e).__name__}", f"{path}: unpacking the returned Delayed raised {e!r}"[:300])
+                why = same(tuple(parts), tuple(vals[name]))
+                if why:
+                    return ("wrong-unpacked-value", f"{path}: unpacked elements differ: {why}")
+            return None
         if isinstance(t, tuple):  # opaque
             return None if got is env["O"] else ("leaf-changed", f"{path}: opaque leaf is not the identical object: {got!r}")
         why = same(got, t)
@@ -379,7 +404,7 @@ def walk_collections(t, got, env, vals, path="$"):
 def all_cases(tier):
     """(api, template, kindX, kindY, traverse, optimize_graph, scheduler)"""
     T = tier == "thorough"
-    pairs49 = tuple(itertools.product(KINDS, KINDS))
+    pairs_all = tuple(itertools.product(KINDS, KINDS))
     d1, c1, d2, c2 = list(depth1()), list(core1()), list(depth2()), list(core2())
     leaves0 = [("args", (leaf,)) for leaf in LEAVES]
     # A: structure sweep through compute with default options
@@ -389,7 +414,7 @@ def all_cases(tier):
     # B: core templates: ALL kind pairs x (every scheduler at default options + every traverse/optimize_graph combination at sync);
     #    the 8 main kind pairs get the full traverse x optimize_graph x scheduler product
     for t in c1 + (c2 if T else []):
-        for kx, ky in pairs49:
+        for kx, ky in pairs_all:
             main = (kx, ky) in PAIRS_MAIN
             for tr in (True, False):
                 for og in (True, False):
@@ -416,7 +441,7 @@ def all_cases(tier):
                 for kx, ky in PAIRS_MAIN[1::2]:
                     yield (api, t, kx, ky, True, True, "sync")
         for t in c1:
-            for kx, ky in pairs49:
+            for kx, ky in pairs_all:
                 for tr in (True, False):
                     for og in (True, False) if api == "persist" else (True,):
                         if (tr, og) != (True, True) or (kx, ky) not in PAIRS_MAIN:
@@ -433,7 +458,7 @@ def all_cases(tier):
     if T:
         inter += [(c, (("dc", (("X",), ("Y",))), ("Z",), ("W",))) for c in SEQ_CONTAINERS] + [(c, p) for c in ("list", "args") for p in itertools.permutations((("X",), ("Y",), ("Z",), ("W",)))]
     for t in inter:
-        for kx, ky in pairs49:
+        for kx, ky in pairs_all:
             for og in (True, False):
                 for s in SCHEDS:
                     if T or s == "sync" or og:
